@@ -15,16 +15,18 @@ Definition has_slots (p : pers) (x : addr) : bool :=
 Definition a_exists (a : astate) (x : addr) : bool :=
   match a_oidx a !! x with Some _ => true | None => match load (a_pers a) x with Some _ => true | None => false end end.
 
-(* C16.selfdestruct_residue: Finalise removes an account (self-destructed, or touched and empty)
-   whose native balance record is non-zero or which has stored storage words: only the keeper
-   record is removed, so the balance record and the storage words stay behind *)
+(* C16.removed_account_residue: Finalise removes an account (self-destructed, or touched and
+   empty) that has stored storage words, or whose in-memory balance is not zero (value received
+   after the self-destruct, in the same transaction): the keeper record is removed, but the
+   storage words stay behind (a re-created account reads them) and the balance is written to the
+   native balance record (the account exists again; go-ethereum burns the value) *)
 Definition doomed (a : astate) (xo : addr * obj) : bool :=
   let '(x, o) := xo in
   o_suic o || (bool_decide (is_Some (dirty_set a !! x)) && obj_empty o).
 Definition trig_residue (a : astate) (o : op) : bool :=
   match o with
   | Finalise | BlockCommit =>
-      existsb (fun xo => doomed a xo && (negb (pbal (a_pers a) xo.1 =? 0) || has_slots (a_pers a) xo.1)) (a_objs a)
+      existsb (fun xo => doomed a xo && (negb (o_bal xo.2 =? 0) || has_slots (a_pers a) xo.1)) (a_objs a)
   | _ => false
   end.
 
@@ -206,7 +208,7 @@ Definition core_op (o : op) : bool :=
   | AddRefund _ | SubRefund _ | GetRefund
   | GetCommittedState _ _ | GetState _ _ | SetState _ _ _
   | Suicide _ | HasSuicided _ | Exist _ | Empty _
-  | Snapshot | RevertToSnapshot _ | Finalise | BlockCommit => true
+  | Snapshot | RevertToSnapshot _ | Finalise | BlockCommit | CreateAccount _ => true
   | _ => false
   end.
 (* a revert that the adapter survives with its dirties index intact (complement of
@@ -220,7 +222,12 @@ Definition revert_fine (a : astate) (o : op) : bool :=
       end
   | _ => true
   end.
-Definition pstep_ok (a : astate) (o : op) : bool := step_ok a o && core_op o && revert_fine a o.
+(* CreateAccount is in the proved core for accounts that do not exist yet (evm.create on a fresh
+   address); re-creation over an existing account is covered by the correspondence only *)
+Definition create_fresh (a : astate) (o : op) : bool :=
+  match o with CreateAccount x => negb (a_exists a x) | _ => true end.
+Definition pstep_ok (a : astate) (o : op) : bool :=
+  step_ok a o && core_op o && revert_fine a o && create_fresh a o.
 Fixpoint pguardedb (a : astate) (ops : list op) : bool :=
   match ops with
   | [] => true
